@@ -258,7 +258,8 @@ def finalize(agg):
     unc = st.get("contract|dykstra.reference-uncertified", 0)
     if unc > 0.05 * max(1, st.get("contract|dykstra.near-optimal", 0)):
         reasons.append("%d reference projections uncertified" % unc)
-    cov = dict(clause_evaluations={k[9:]: int(v) for k, v in st.items() if k.startswith("contract|")},
+    cov = dict(evaluations=int(st.get("direct_calls", 0) + st.get("insitu_calls", 0)),
+               clause_evaluations={k[9:]: int(v) for k, v in st.items() if k.startswith("contract|")},
                direct_calls=int(st.get("direct_calls", 0)), stopped_by_rule=int(st.get("stopped_by_rule", 0)),
                hit_sweep_cap=int(st.get("hit_sweep_cap", 0)), in_situ_calls=int(st.get("insitu_calls", 0)),
                in_situ_stopped_by_rule=int(st.get("insitu_stopped_by_rule", 0)),
